@@ -582,8 +582,10 @@ def _coq_tfile(name: str, path: str, suffix: str = '.j2') -> str:
     stem = os.path.splitext(os.path.basename(name))[0]
     cls = CLS_OF_STEM.get(stem) if (j2 and '/' not in name) else None
     py = os.path.splitext(name)[1] in ('.py', '.pyc', '.pyo') or '__pycache__' in name.split('/')
-    return '{| tf_name := %s; tf_path := %s; tf_j2 := %s; tf_py := %s; tf_cls := %s' % (
-        s2c(name), coq_path(path), 'true' if j2 else 'false', 'true' if py else 'false', ('Some %s' % cls) if cls else 'None')
+    pkg = os.path.basename(name) == '__init__.py' or os.path.splitext(name)[1] in ('.pyc', '.pyo') or '__pycache__' in name.split('/')
+    return '{| tf_name := %s; tf_path := %s; tf_j2 := %s; tf_py := %s; tf_pkg := %s; tf_linked := false; tf_cls := %s' % (
+        s2c(name), coq_path(path), 'true' if j2 else 'false', 'true' if py else 'false', 'true' if pkg else 'false',
+        ('Some %s' % cls) if cls else 'None')
 
 
 def lang_data() -> typing.Dict[str, dict]:
@@ -635,6 +637,8 @@ def gen_listing() -> typing.Tuple[bool, str]:
         if ptr.lists_deps and dep_variant not in ('fix', 'fix2'):
             raise Unsupported('_dependency_source_files does not have the pinned shape')
         tpl_variant, sup_variant = variant_of('tplenum'), variant_of('supenum')
+        if tpl_variant is None or sup_variant is None:
+            raise Unsupported('get_templates / _get_templates_by_support_type have none of the pinned shapes')
         fields = [
             ('k_sgs', sgs), ('k_reject', tr_reject(cc)), ('k_read', tr_read_cond(rr)), ('k_prog', prog),
             ('k_ns_arg', tr_ns_arg(rr)), ('k_ns_decide', tr_ns_decide(gg)), ('k_sup_tpl', tr_sup_templates(jj)),
@@ -643,12 +647,14 @@ def gen_listing() -> typing.Tuple[bool, str]:
             ('k_guard_copy', leaf_guard(jj, 'SupportGenerator', '_copy_header')),
             ('k_types_all_when_ns', tr_types_loop(jj)),
             ('k_fix_lookup', 'true' if ptr.lists_deps else 'false'),
-            ('k_fix_nonj2', 'true' if tpl_variant == 'fix' else 'false'),
+            ('k_fix_nonj2', 'true' if tpl_variant in ('fix', 'fix3') else 'false'),
             ('k_fix_suptpl', 'true' if sup_variant == 'fix' else 'false'),
             ('k_path_pure', 'true' if path_effects() == [] else 'false'),
             ('k_ns_check', ns_check_flag()),
             ('k_fix_constref', 'true' if dep_variant == 'fix2' else 'false'),
             ('k_stem_check', stem_check_flag()),
+            ('k_fix_pyres', 'true' if tpl_variant == 'fix3' else 'false'),
+            ('k_fix_linkdir', 'true' if tpl_variant == 'fix3' else 'false'),
         ]
         data = lang_data()
         parts = ['Definition the_code : code := {|\n%s |}.' % ';\n'.join('  %s := %s' % f for f in fields)]
@@ -803,7 +809,9 @@ PIN_COMMON = [
 ]
 PIN_VARIANTS = {
     'tplenum': {'orig': [(JL, 'DSDLTemplateLoader.get_templates')],
-                'fix': [(JL, 'DSDLTemplateLoader.get_templates'), (JL, '_is_template_resource')]},
+                'fix': [(JL, 'DSDLTemplateLoader.get_templates'), (JL, '_is_template_resource')],
+                # design_notes/C08_list_inputs_closure_fix.patch: .py resources are listed, linked sub-directories are walked
+                'fix3': [(JL, 'DSDLTemplateLoader.get_templates'), (JL, '_is_template_resource'), (JL, '_walk_template_files')]},
     'supenum': {'orig': [(JI, 'SupportGenerator._get_templates_by_support_type')],
                 'fix': [(JI, 'SupportGenerator._get_templates_by_support_type'), (JI, 'SupportGenerator._rendered_template')]},
     # fix: composite dependencies only (bf5515b); fix2: also every definition the front end read (design_notes/C08_constref_fix.patch)
@@ -833,7 +841,7 @@ def _pins() -> dict:
 def variant_of(part: str) -> typing.Optional[str]:
     """name of the pinned variant the tree under test has for `part` (the richest first), None when it has none of them"""
     pins = _pins()
-    for name in ('fix2', 'fix', 'orig'):
+    for name in ('fix3', 'fix2', 'fix', 'orig'):
         targets = PIN_VARIANTS[part].get(name)
         if targets is not None and pins.get(part, {}).get(name) is not None and _dump(targets) == pins[part][name]:
             return name
@@ -916,8 +924,8 @@ def update_pins(named: typing.Optional[typing.Dict[str, str]] = None) -> None:
         merged[fn] = sorted(set(merged.get(fn, [])) | set(names))
     pins['callees'] = merged
     for part, variants in PIN_VARIANTS.items():
-        d = _dump(variants['fix'])
         name = (named or {}).get(part, 'fix')
+        d = _dump(variants.get(name, variants['fix']))
         if d is None and 'orig' in variants:
             d, name = _dump(variants['orig']), 'orig'
         if d is not None:
